@@ -322,6 +322,8 @@ Section WS.
     | FOk f1 => rename f1 (tmp_of p) p
     end.
 
+  Definition is_null (v : json) : bool := match v with JNull => true | _ => false end.
+
   (* _load_from_resource + the validation of _StatePointDict.load; reads only *)
   Definition load_file (w : world) (h : handle) : res json :=
     match get (w_fs w) (spfile w h) with
@@ -330,7 +332,9 @@ Section WS.
     | Some (File c) =>
         match c_json c with
         | None => inr (FExn EJobsCorrupted)       (* JSONDecodeError *)
-        | Some v => if str_eqb (calc_id frepr v) (h_id h) then inl v else inr (FExn EJobsCorrupted)
+        | Some v =>
+            (* "if data is None or calc_id(data) != job_id" (fix ae33aa8): a file holding null never validates *)
+            if str_eqb (calc_id frepr v) (h_id h) && negb (is_null v) then inl v else inr (FExn EJobsCorrupted)
         end
     end.
 
@@ -372,6 +376,10 @@ Section WS.
     match early with
     | Some w2 => (w2, inl tt)
     | None =>
+      (* "self.statepoint" (fix 270ca63): a handle whose state point cannot be loaded fails before anything is created *)
+      match sp_access w1 hi with
+      | (w1', inr e) => (w1', inr e)
+      | (w1, inl _) =>
         let h := getH w1 hi in
         let jd := jobdir w1 h in
         let mk := if isdir (w_fs w1) jd then FOk (w_fs w1, []) else
@@ -404,6 +412,7 @@ Section WS.
                 end
             end
         end
+      end
     end.
 
   (* ids of all handles of a cell := new id *)
@@ -455,7 +464,14 @@ Section WS.
                 match rename f1 tmp fname with          (* rollback *)
                 | FErr e' => (w1, inr (FOs e'))
                 | FOk f3 =>
-                    let w3 := set_fs w1 f3 [EvRename tmp fname] in
+                    (* fix 5e72814: "with self._suspend_sync: self._update(self._load_from_resource())" *)
+                    let back := match get f3 fname with
+                                | Some (File cf) => match c_json cf with
+                                                    | Some v => snd (upd_root (c_data c) v)
+                                                    | None => c_data c end
+                                | _ => c_data c
+                                end in
+                    let w3 := set_C (set_fs w1 f3 [EvRename tmp fname]) ci (mkC back (c_jobs c)) in
                     if dest_exists_errno e then (w3, inr (FExn EDestinationExists))
                     else match e with ENOENT => (w3, inl false) | _ => (w3, inr (FOs e)) end
                 end
@@ -564,7 +580,7 @@ Section WS.
     else if present i then inl i else inr (FExn EKeyError).
 
   Definition resolve (f : fs) (wsd : path) (i : str) : res str :=
-    resolve_ids (job_dirs f wsd) (fun x => exists_ f (wsd ++ [x])) i.
+    resolve_ids (job_dirs f wsd) (fun x => id_match x && exists_ f (wsd ++ [x])) i.   (* fix b6340e2 *)
 
   Definition open_id (w : world) (si : nat) (i : str) : world * res nat :=
     let s := getS w si in
@@ -644,7 +660,10 @@ Section WS.
             | FErr e => if dest_exists_errno e then (w2, inr (FExn EDestinationExists)) else (w2, inr (FOs e))
             | FOk f3 =>
                 let w3 := set_fs w2 f3 [EvRename (jobdir w2 h) (wsd ++ [did])] in
-                (register (set_HD (set_H w3 hi (mkH sj did (Some d) None false)) hi None) sj did d, inl tt)
+                (* fix d38783c: the handle leaves the _jobs list of its old state point object *)
+                let cc := getC w3 ci in
+                let w3' := set_C w3 ci (mkC (c_data cc) (filter (fun j => negb (Nat.eqb j hi)) (c_jobs cc))) in
+                (register (set_HD (set_H w3' hi (mkH sj did (Some d) None false)) hi None) sj did d, inl tt)
             end
         end
     end.
@@ -845,7 +864,7 @@ Section WS.
     end.
 
   (* Project.update_cache(): returns len(cache) when the file was written, None when "up to date".
-     (cached_ids is taken BEFORE the in-memory cache is reconciled with the workspace: finding F9 of C08) *)
+     (the file is compared with the ids AFTER the in-memory cache was reconciled with the workspace: fix d7351f9) *)
   Definition update_cache (w : world) (si : nat) : world * res (option N) :=
     let s := getS w si in
     let file := cache_file (w_fs w) s in
@@ -859,8 +878,8 @@ Section WS.
         let w1 := set_S w si (mkS (s_root s) c2 (s_cread s)) in
         let stale := match file with
                      | None => true
-                     | Some kvs => negb (forallb (fun k => str_mem k cached_ids) (map fst kvs)
-                                         && forallb (fun k => str_mem k (map fst kvs)) cached_ids)
+                     | Some kvs => negb (forallb (fun k => str_mem k (map fst c2)) (map fst kvs)
+                                         && forallb (fun k => str_mem k (map fst kvs)) (map fst c2))
                      end in
         if stale then
           let p := cache_path s in
@@ -1005,7 +1024,7 @@ Section WS.
         end
     | OIds s => (w, q, VStrs (job_dirs (w_fs w) (wsp (getS w s))))
     | OLen s => (w, q, VNum (N.of_nat (length (job_dirs (w_fs w) (wsp (getS w s))))))
-    | OContains s h => (w, q, VBool (exists_ (w_fs w) (wsp (getS w s) ++ [h_id (getH w h)])))
+    | OContains s h => (w, q, VBool (id_match (h_id (getH w h)) && exists_ (w_fs w) (wsp (getS w s) ++ [h_id (getH w h)])))
     | OCopy h => let '(w1, r) := copy_handle w h in (w1, q, out_handle w1 r)
     | ODeepCopy h => let '(w1, r) := deep_handle false w h in (w1, q, out_handle w1 r)
     | OPickle h => let '(w1, r) := deep_handle true w h in (w1, q, out_handle w1 r)
@@ -1138,7 +1157,7 @@ Section WS.
   (* a job directory that validates: directory, state point file present, parses, hashes to the name *)
   Definition valid_job (f : fs) (wsd : path) (i : str) (sp : json) : Prop :=
     get f (wsd ++ [i]) = Some Dir /\
-    exists c, get f (wsd ++ [i; SPF]) = Some (File c) /\ c_json c = Some sp /\ calc_id frepr sp = i.
+    exists c, get f (wsd ++ [i; SPF]) = Some (File c) /\ c_json c = Some sp /\ calc_id frepr sp = i /\ is_null sp = false.
 
 End WS.
 
